@@ -35,7 +35,8 @@ func runFuncLeg(r *vf.Run) {
 	shards := (n + shard - 1) / shard
 	pub, _ := cipher.MustGenerateDeterministicKeyPair([]byte(fmt.Sprintf("c25-chain-%d", r.Seed)))
 	var genesis [32]byte
-	copy(genesis[:], cipher.SumSHA256([]byte("c25-genesis"))[:])
+	gh := cipher.SumSHA256([]byte("c25-genesis"))
+	copy(genesis[:], gh[:])
 
 	vf.Parallel(shards, 16, func(s int) {
 		rng := r.Rand("func", s)
